@@ -391,16 +391,29 @@ def hostile_replay(tier, out):
     big = [("big-pow", "from Reduino.Utils import sleep\nsleep(9**9**9)\n"), ("big-shift", "x = 1 << 10**9\n"),
            ("pow-chain", "y = (((2**64)**64)**64)**64\n"), ("pow-in-arg", "from Reduino.Actuators import Led\nled = Led(13)\nled.blink(7**7**7**7)\n"),
            ("deep-parens", "x = " + "(" * 80 + "1" + ")" * 80 + "\n"), ("long-sum", "x = " + " + ".join(["1"] * 400) + "\n")]
-    hung = []
-    for name, text in big:
-        t1 = time.time()
+    # sign / operand-order grid of the size-sensitive operators (the size guard must not depend on the sign or position of an operand)
+    for b in ("2", "3", "-2", "-3", "(-3)", "10**6", "(-10**6)", "7.5", "(-7.5)"):
+        for e in ("10**9", "(10**7)"):
+            big.append((f"pow {b}^{e}", f"x = ({b}) ** ({e})\n"))
+            big.append((f"pow-arg {b}^{e}", f"from Reduino.Utils import sleep\nsleep(({b}) ** {e})\n"))
+        big.append((f"shl {b}", f"x = {b} << 10**9\n") if "." not in b else (f"mul-float {b}", f"x = {b} * 10.0**300 * 10.0**300\n"))
+    for a, b in (("'ab'", "10**10"), ("10**10", "'ab'"), ("[0]", "10**10"), ("10**10", "[0, 1]"), ("'ab' * 10**5", "10**6")):
+        big.append((f"repeat {a}*{b}", f"x = {a} * {b}\n"))
+    big.append(("factorial-like", "x = " + " * ".join(["10**300"] * 60) + "\n"))
+
+    def one_case(job):
+        name, text = job
         try:
             rr = subprocess.run(["/venv/bin/python", "-c", HOSTILE, src, json.dumps([[name, text]])], capture_output=True, text=True, timeout=20)
             one = json.loads(rr.stdout)[0] if rr.returncode == 0 else {"result": "CRASH:harness " + rr.stderr[-200:]}
             if one["result"].startswith("CRASH"):
-                hung.append({"case": name, "result": one["result"], "source": text[:120]})
+                return {"case": name, "result": one["result"], "source": text[:120]}
         except subprocess.TimeoutExpired:
-            hung.append({"case": name, "result": "no result within 20 s", "source": text[:120]})
+            return {"case": name, "result": "no result within 20 s", "source": text[:120]}
+        return None
+    from concurrent.futures import ThreadPoolExecutor
+    with ThreadPoolExecutor(16) as ex:
+        hung = [h for h in ex.map(one_case, big) if h]
     out.append({"name": "C11/bounded/terminates-promptly", "status": "discharged" if not hung else "sat", "backend": "bounded-native",
                 "where": f"{len(big)} scripts with explosive constant expressions are transpiled (or rejected) within 20 s each",
                 "time": 0.0, "bounded": True, "replay": {"cases": hung}, "replay_confirmed": bool(hung)})
